@@ -32,28 +32,6 @@ theorem fixChecks_eq (c : Checks) : T1.fixChecks c = Fix.fixChecks c := by
 theorem fixChecksOpt_eq (o : Option Checks) : T1.fixChecksOpt o = o.map Fix.fixChecks := by
   cases o <;> simp [T1.fixChecksOpt, fixChecks_eq]
 
-theorem checksFailed_eq (o : Option Checks) : T1.checksFailedOpt o = Fix.isFailed (o.map (·.status)) := by
-  cases o with
-  | none => rfl
-  | some c => simp [T1.checksFailedOpt, T1.checksFailed, Fix.isFailed]
-
-theorem checksCompleted_eq (o : Option Checks) : T1.checksCompletedOpt o = Fix.isDone (o.map (·.status)) := by
-  cases o with
-  | none => rfl
-  | some c => simp [T1.checksCompletedOpt, T1.checksCompleted, Fix.isDone]
-
-/-- `examineBypasses`: a scope counts as bypassed exactly when its bypass group exists and is Completed -/
-theorem examineBypasses_eq (o : Option Checks) : T1.examineBypassesOpt o = (o.map (·.status) == some .completed) := by
-  cases o with
-  | none => rfl
-  | some c => simp [T1.examineBypassesOpt, T1.examineBypasses]
-
-/-- `skipRecoveredChecks` skips exactly the absent groups (its two non-nil branches both say "do not skip") -/
-theorem skipRecoveredChecks_eq (o : Option Checks) : T1.skipRecoveredChecksOpt o = o.isNone := by
-  cases o with
-  | none => rfl
-  | some c => simp [T1.skipRecoveredChecksOpt, T1.skipRecoveredChecks]
-
 end Coercion.Translated
 
 namespace Coercion.Translated
